@@ -105,6 +105,13 @@ func switchToParentThread(L *LState, nargs int, haserror bool, kill bool) {
 func callGFunction(L *LState, tailcall bool, baseframe *callFrame) bool {
 	frame := L.currentFrame
 	gfnret := frame.Fn.GFunction(L)
+	if tailcall && gfnret < 0 {
+		// a host function that yields is not tail called after all: the caller's frame stays, the values of
+		// the next resume land where the call was made and the RETURN that follows the TAILCALL hands them on
+		frame.ReturnBase = frame.Base
+		frame.NRet = MultRet
+		tailcall = false
+	}
 	if tailcall {
 		L.currentFrame = L.RemoveCallerFrame()
 	}
